@@ -437,6 +437,29 @@ Lemma run_act_ACall_eq fx v ac rg hs construct envfp nenv body :
       else (v, Continue, [])).
 Proof. reflexivity. Qed.
 
+Lemma run_act_ANew_eq fx v ac rg hs envfp nenv init body :
+  run_act fx v (ANew ac rg hs envfp nenv init body) =
+  (let need := ac + 3 in
+      if rp (top v) + regs (top v) + need <=? stack v then
+        match check_limits v with
+        | Some k => let '(v1, c) := handle_error fx v false in (v1, c, [OLimit k])
+        | None =>
+            let v1 := set_stack v (stack v - 1) in
+            let '(v1', ri, oi) := run_racts fx v1 ROk init in
+            match ri with
+            | ROk =>
+                let v2 := push_frame v1' (ordinary_frame ac rg hs false envfp nenv) in
+                let '(v3, r, o) := run_acts fx v2 body in
+                match r with
+                | Some c => (v3, Break c, oi ++ o)
+                | None => (v3, Continue, oi ++ o)
+                end
+            | _ => let '(v3, c) := err_ctl fx v1' ri in (v3, c, oi)
+            end
+        end
+      else (v, Continue, [])).
+Proof. reflexivity. Qed.
+
 Lemma run_act_ACallNative_eq fx v ac construct body :
   run_act fx v (ACallNative ac construct body) =
   (let need := ac + 2 + (if construct then 1 else 0) in
@@ -592,6 +615,37 @@ Lemma run_ract_RHostConstruct_eq fx v last ac rg hs envfp nenv proto_ok body :
           else
             let v2 := if fx_call fx then trunc v1' s0 else v1' in
             done v2 (RErr true)
+      end).
+Proof. reflexivity. Qed.
+
+Lemma run_ract_RHostNew_eq fx v last ac rg hs envfp nenv init body :
+  run_ract fx v last (RHostNew ac rg hs envfp nenv init body) =
+  (let done v res := (v, @None rres, res, [ODone res (length (frames v)) (stack v) (hdepth v)]) in
+  let boundary v2 (r : option compl) := match r with Some c => c | None => escaped v2 end in
+  let s0 := stack v in
+      let v1 := set_stack v (s0 + 3 + ac) in
+      match check_limits v1 with
+      | Some k =>
+          let v2 := if fx_call fx then trunc v1 s0 else v1 in
+          let '(v3, x, res, o) := done v2 (RErr false) in (v3, x, res, OLimit k :: o)
+      | None =>
+          let v1' := set_stack v1 (stack v1 - 1) in
+          let '(v1i, ri, oi) := run_racts fx v1' ROk init in
+          match ri with
+          | ROk =>
+              let v2 := push_frame v1i (ordinary_frame ac rg hs true envfp nenv) in
+              let v3 := set_hdepth v2 (S (hdepth v2)) in
+              let '(v4, r, o) := run_acts fx v3 body in
+              let c := boundary v4 r in
+              let v5 := set_hdepth v4 (hdepth v4 - 1) in
+              match pop_frame v5 with
+              | Some (_, v6) => let '(v7, x, res, o2) := done v6 (compl_res c) in (v7, x, res, oi ++ o ++ o2)
+              | None => let '(v7, x, res, o2) := done v5 RPanic in (v7, x, res, oi ++ o ++ o2)
+              end
+          | _ =>
+              let v2 := if fx_call fx then trunc v1i s0 else v1i in
+              let '(v3, x, res, o2) := done v2 ri in (v3, x, res, oi ++ o2)
+          end
       end).
 Proof. reflexivity. Qed.
 
@@ -873,6 +927,72 @@ Proof.
     { intros GF. simpl in GF. rewrite B3; auto. }
     destruct r as [c|]; splits; eauto using aux_same_trans.
     destruct B4 as (B4 & B5). simpl. split; auto. lia.
+Qed.
+
+Lemma push_run_spec body (IH : P_acts body) v1 E below ac rg hs envfp nenv :
+  Inv (frames v1) (stack v1) E below -> GInv v1 ->
+  rp (hd dummy (frames v1)) + regs (hd dummy (frames v1)) + (ac + 2) <= stack v1 ->
+  match run_acts fx_new (push_frame v1 (ordinary_frame ac rg hs false envfp nenv)) body with
+  | (v3, r, _) =>
+      ctl_ok (match r with Some c => Break c | None => Continue end) v1 v3 E below /\ aux_same v1 v3 /\ GInv v3 /\
+      gens_keep (genfree_acts body) v1 v3
+  end.
+Proof.
+  intros I G GD.
+  set (v2 := push_frame v1 (ordinary_frame ac rg hs false envfp nenv)).
+  assert (I2 : Inv (frames v2) (stack v2) E below).
+  { subst v2. unfold push_frame, ordinary_frame. simpl.
+    eapply Inv_push; eauto; simpl; try lia; try (split; reflexivity). }
+  assert (G2 : GInv v2) by (subst v2; exact G).
+  assert (A2 : aux_same v1 v2 /\ gens v2 = gens v1 /\ length (frames v2) = S (length (frames v1))).
+  { subst v2. unfold push_frame, ordinary_frame, aux_same. simpl. splits; side. }
+  destruct A2 as (A2 & A3 & A4).
+  specialize (IH v2 E below I2 G2).
+  destruct (run_acts fx_new v2 body) as ((v3 & r) & o).
+  destruct IH as (B1 & B2 & B3 & B4).
+  assert (gens_keep (genfree_acts body) v1 v3) by (intros GF; rewrite B3; auto).
+  destruct r as [c|]; splits; auto; try (unfold aux_same in *; intuition congruence).
+  destruct B4 as (B4 & B5). simpl. split; auto. lia.
+Qed.
+
+Lemma P_ANew ac rg hs envfp nenv init body :
+  P_racts init -> P_acts body -> P_act (ANew ac rg hs envfp nenv init body).
+Proof.
+  intros IHi IH v E below I G. rewrite run_act_ANew_eq. cbv zeta.
+  destruct (rp (top v) + regs (top v) + (ac + 3) <=? stack v) eqn:GD.
+  2: { splits; side. }
+  apply Nat.leb_le in GD. unfold top in GD.
+  destruct (check_limits v) as [k|].
+  - pose proof (handle_error_spec v E below false I) as X.
+    destruct (handle_error fx_new v false) as (v1 & c). apply wrap_handler; auto.
+  - set (v1 := set_stack v (stack v - 1)).
+    assert (I1 : Inv (frames v1) (stack v1) E below) by (subst v1; simpl; eapply Inv_lower; eauto; lia).
+    assert (G1 : GInv v1) by (subst v1; exact G).
+    specialize (IHi v1 ROk (wf_of_Inv v1 E below I1 G1)).
+    destruct (run_racts fx_new v1 ROk init) as ((v1' & ri) & oi).
+    destruct IHi as (F & S & A & G2 & K & OK).
+    assert (R_ok ri) as OKr by (apply OK; discriminate).
+    assert (I2 : Inv (frames v1') (stack v1') E below) by (eapply Inv_transfer; eauto).
+    assert (A' : aux_same v v1') by (subst v1; unfold aux_same in *; simpl in *; tauto).
+    assert (F' : frames v1' = frames v) by (rewrite F; reflexivity).
+    destruct ri.
+    + assert (GD' : rp (hd dummy (frames v1')) + regs (hd dummy (frames v1')) + (ac + 2) <= stack v1').
+      { rewrite F', S. subst v1. simpl. lia. }
+      pose proof (push_run_spec body IH v1' E below ac rg hs envfp nenv I2 G2 GD') as X.
+      destruct (run_acts fx_new (push_frame v1' (ordinary_frame ac rg hs false envfp nenv)) body) as ((v3 & r) & o).
+      destruct X as (X1 & X2 & X3 & X4).
+      assert (KK : gens_keep (genfree_act (ANew ac rg hs envfp nenv init body)) v v3).
+      { intros GF. simpl in GF. apply andb_prop in GF. destruct GF as (GF1 & GF2). rewrite X4, K; auto. }
+      destruct r as [c|]; splits; auto; try (unfold aux_same in *; intuition congruence).
+      simpl in *. rewrite <- F'. exact X1.
+    + pose proof (err_ctl_spec v1' E below (RErr catchable) I2 OKr) as X.
+      destruct (err_ctl fx_new v1' (RErr catchable)) as (v3 & c). destruct X as (X1 & X2 & X3).
+      splits.
+      * destruct c; simpl in *; auto. rewrite <- F'. exact X1.
+      * unfold aux_same in *; intuition congruence.
+      * unfold GInv. rewrite X3. exact G2.
+      * intros GF. simpl in GF. apply andb_prop in GF. destruct GF as (GF1 & GF2). rewrite X3, K; auto.
+    + exfalso. apply OKr. reflexivity.
 Qed.
 
 Lemma native_result_spec body (IH : P_racts body) v v1 E below :
@@ -1177,6 +1297,50 @@ Proof.
     + destruct W. subst v1' v1. simpl. splits; side; try rok.
 Qed.
 
+Lemma P_RHostNew ac rg hs envfp nenv init body :
+  P_racts init -> P_acts body -> P_ract (RHostNew ac rg hs envfp nenv init body).
+Proof.
+  intros IHi IH v last W. rewrite run_ract_RHostNew_eq. cbv beta zeta.
+  set (v1 := set_stack v (stack v + 3 + ac)).
+  destruct (check_limits v1) as [k|].
+  - destruct W. subst v1. simpl. splits; side; try rok.
+  - set (v1' := set_stack v1 (stack v1 - 1)).
+    assert (W1 : wf v1') by (destruct W; split; auto).
+    specialize (IHi v1' ROk W1).
+    destruct (run_racts fx_new v1' ROk init) as ((vi & ri) & oi).
+    destruct IHi as (F & SS & A & G2 & K & OK).
+    assert (R_ok ri) as OKr by (apply OK; discriminate).
+    destruct W as (NE & G).
+    assert (Fi : frames vi = frames v) by (rewrite F; reflexivity).
+    assert (Si : stack vi = stack v + 2 + ac) by (rewrite SS; subst v1' v1; simpl; lia).
+    assert (Ai : aux_same v vi) by (subst v1' v1; unfold aux_same in *; simpl in *; tauto).
+    destruct ri.
+    + set (E := mkF (stack vi - ac - 2) (stack vi) rg ac true false envfp (envfp + nenv) 0 hs).
+      set (v3 := set_hdepth (push_frame vi (ordinary_frame ac rg hs true envfp nenv)) _).
+      assert (F3 : frames v3 = E :: frames v) by (subst v3 E; simpl; rewrite Fi; reflexivity).
+      assert (S3 : stack v3 = stack vi + rg) by reflexivity.
+      assert (G3 : GInv v3) by (subst v3; exact G2).
+      assert (fp E <= rp E) as L1 by (simpl; lia).
+      assert (rp E + regs E <= stack v3) as L2 by (rewrite S3; simpl; lia).
+      pose proof (entry_run body IH v3 E (frames v) F3 NE eq_refl eq_refl L1 L2 G3) as X.
+      destruct (run_acts fx_new v3 body) as ((v4 & r) & o).
+      destruct X as (E' & X1 & X2 & X3 & X4 & X5 & X6).
+      rewrite (pop_frame_cons (set_hdepth v4 (hdepth v4 - 1)) E' (frames v)); auto.
+      simpl.
+      assert (H3 : hdepth v3 = S (hdepth v)) by (subst v3; unfold aux_same in Ai; simpl; f_equal; tauto).
+      splits; auto.
+      all: try (solve [rewrite X2; simpl; lia]).
+      all: try (solve [unfold aux_same in *; simpl in *; splits; try lia; intuition congruence]).
+      all: try (solve [intros GF; simpl in *; apply andb_prop in GF; destruct GF as (GF1 & GF2);
+                       rewrite (X6 GF2); subst v3; simpl; rewrite K; auto]).
+      all: try (solve [intros _; split; [|exact I]; apply compl_res_ok; exact X3]).
+    + simpl. splits; auto; try lia.
+      all: try (solve [unfold aux_same in *; simpl in *; intuition congruence]).
+      all: try (solve [intros GF; simpl in *; apply andb_prop in GF; destruct GF as (GF1 & GF2); rewrite K; auto]).
+      all: try (solve [intros _; split; auto]).
+    + exfalso. apply OKr. reflexivity.
+Qed.
+
 Lemma P_RNil : P_racts RNil.
 Proof.
   intros v last (NE & G). rewrite run_racts_RNil_eq. splits; side. unfold R_ok; discriminate.
@@ -1306,7 +1470,7 @@ Proof.
   destruct P_simple as (S1 & S2 & S3 & S4 & S5 & S6).
   destruct P_handlers as (H1 & H2 & H3 & H4 & H4' & H5 & H6 & H6' & H7).
   destruct P_ract_simple as (R1 & R2 & R3 & R4 & R5).
-  apply tree_mutind; intros; auto using P_ACall, P_ACallNative, P_ARust, P_ANil, P_ACons, P_RHostEval, P_RHostCall,
+  apply tree_mutind; intros; auto using P_ANew, P_RHostNew, P_ACall, P_ACallNative, P_ARust, P_ANil, P_ACons, P_RHostEval, P_RHostCall,
     P_RHostCallNative, P_RHostConstruct, P_RHostConstructNative, P_RResume, P_RBlock, P_RHostModuleLink, P_RNil, P_RCons.
 Qed.
 
@@ -1456,3 +1620,13 @@ Lemma invisible_nonvacuous_lemma :
   run_history fx_new (init 512 12) [w_throw; w_ok; w_error; w_call; w_decl; w_ok] =
     [RErr true; ROk; RErr false; RErr true; RErr true; ROk].
 Proof. vm_compute. auto. Qed.
+
+(* host [[Construct]] of `class B { x = ft(); constructor(){} }` with `function ft(){ throw 1 }`: the field initialiser
+   (a nested host [[Call]] made by InitializeInstanceElements before the constructor's frame exists) throws *)
+Definition w_init_throw : ract :=
+  RHostNew 0 3 [] 0 0
+    (rl [RHostCall 0 3 [] 0 0 (al [APush 2; ACall 0 2 [] false 0 0 (al [AThrow])]); RPropagate true]) ANil.
+
+Lemma init_throw_example_lemma :
+  run_entry fx_new (init 512 1024) w_init_throw = (init 512 1024, RErr true).
+Proof. vm_compute. reflexivity. Qed.
